@@ -62,7 +62,7 @@ def main():
     ap.add_argument("--search"); ap.add_argument("--replay")
     a = ap.parse_args()
     if a.replay:
-        d = json.load(open(a.replay))["input"]; r = one(d["seed"])
+        d = json.load(open(a.replay))["input"]; r = one(d["seed"]) if d.get("seed", 0) >= 0 else "zero-row screen (see the unconditional case of the harness)"
         print(json.dumps({"violations": [dict(d, what=r)] if r else []})); return
     N = 150 if (a.tier == "quick" or a.search) else 3000
     viol = []
@@ -71,8 +71,23 @@ def main():
         try: r = one(seed)
         except Exception as e: r = "raised %r" % (e,)
         if r and len(viol) < 5: viol.append({"seed": seed, "what": r, "site": "Screen/ExperimentSpace save_h5+load_h5"})
+    # the screen with no experiment at all (constructible, hence inside the property's quantifier)
+    try:
+        z = Screen(observations=np.zeros(0), observation_mask=np.zeros(0, bool), sample_names=np.array([], dtype=str), plate_names=np.array([], dtype=str),
+                   treatment_names=np.zeros((0, 2), dtype=str), treatment_doses=np.zeros((0, 2)))
+    except Exception:
+        z = None  # not constructible any more: outside the quantifier
+    if z is not None:
+        fn = os.path.join(SCR, "c02z_%d.h5" % os.getpid())
+        try:
+            z.save_h5(fn); z2 = Screen.load_h5(fn); r = compare(z, z2)
+        except Exception as e:
+            r = "raised %r" % (e,)
+        finally:
+            if os.path.exists(fn): os.unlink(fn)
+        if r: viol.append({"seed": -1, "what": "zero-row screen: " + r, "site": "Screen.save_h5+load_h5#zero-row screen"})
     print(json.dumps({"violations": viol, "bounded": [{"function": "Screen.save_h5/load_h5, ExperimentSpace.save_h5/load_h5 (and conformance of the h5py/np.char assumptions)",
-        "bound": "%d random screens (<=8 rows, arity 1-3, non-ASCII/empty/unequal-length names, NaN/-0.0/denormal/inf payloads, superset mappings) x 3 cycles" % N,
+        "bound": "%d random screens (<=8 rows, arity 1-3, non-ASCII/empty/unequal-length names, NaN/-0.0/denormal/inf payloads, superset mappings) x 3 cycles; the zero-row screen" % N,
         "evaluations": N, "distinct_nontrivial": N, "label": "bounded stand-in, not counted as proved"}]}))
 
 
